@@ -24,6 +24,7 @@ fn seed_with_first_uniform_zero() -> u64 {
 }
 
 /// C16.never_zero_prob — a category of probability zero must never be returned, also for r == 0.
+#[cfg(feature = "verif-hooks")]
 #[test]
 fn c16_never_zero_prob_r_equals_zero() {
     let s = seed_with_first_uniform_zero();
@@ -863,6 +864,73 @@ mod oracle {
             }
             (cur, Adapt { m, n_discard: a.n_discard, eps, eps_bar, h_bar, mu: a.mu }, logu, fragile || !cur_joint_ok && false)
         }
+        /// the step-size heuristic at the start point, as NUTSChain::init_chain applies it on first use
+        fn reference_eps0(x: &[f64], mom: &[f64]) -> f64 {
+            let (lp0, g0) = lp_grad(x);
+            let p0 = Pt { x: x.to_vec(), r: mom.to_vec(), g: g0 };
+            let mut eps = 1.0f64;
+            let (p1, mut lp1) = lf(&p0, eps);
+            let g1_real = p1.g.iter().all(|v| v.is_finite());
+            let mut mom1 = p1.r.clone();
+            let mut k = 1.0f64;
+            while !lp1.is_finite() && !g1_real {
+                k *= 0.5;
+                let (p, lp) = lf(&p0, eps * k);
+                mom1 = p.r.clone();
+                lp1 = lp;
+            }
+            eps = 0.5 * k * eps;
+            let mut lap = lp1 - lp0 - (dot(&mom1, &mom1) - dot(mom, mom)) * 0.5;
+            let a = if lap > 0.5f64.ln() { 1.0 } else { -1.0 };
+            while a * lap > -a * 2.0f64.ln() {
+                eps *= 2.0f64.powf(a);
+                let (p, lp) = lf(&p0, eps);
+                lap = lp - lp0 - (dot(&p.r, &p.r) - dot(mom, mom)) * 0.5;
+            }
+            eps
+        }
+        /// Black box (public API only): whole runs from a seed, incl. repeated runs on one chain and warm-up length 0,
+        /// against Algorithm 6 + dual averaging simulated from the same seed.
+        #[test]
+        fn oracle_c03_c04_blackbox_runs_match_reference_from_the_seed() {
+            let cases: Vec<(u64, Vec<f64>, f64, Vec<(usize, usize)>)> = vec![
+                (21, vec![0.2, 0.9], 0.8, vec![(6, 0), (3, 0)]),
+                (22, vec![3.0, -2.0], 0.65, vec![(5, 4), (4, 2), (3, 0)]),
+                (23, vec![-1.0, 4.0], 0.9, vec![(2, 10), (4, 12)]),
+                (24, vec![0.5, 0.5], 0.8, vec![(8, 1)]),
+            ];
+            for (seed, start, delta, runs) in cases {
+                let mut ch = NUTSChain::<f64, B, _>::new(gauss(), start.clone(), delta).set_seed(seed);
+                let mut rng = SmallRng::seed_from_u64(seed);
+                let mut x = start.clone();
+                let mut a = Adapt { m: 0, n_discard: 0, eps: -1.0, eps_bar: 1.0, h_bar: 0.0, mu: 0.0 };
+                let mut fragile = false;
+                for (ri, (n_collect, n_discard)) in runs.iter().copied().enumerate() {
+                    let got = ch.run(n_collect, n_discard).to_data().to_vec::<f64>().unwrap();
+                    // init_chain: dim normals, eps0 on first use only, mu = ln(10 eps), run lengths stored
+                    let mom0: Vec<f64> = (0..2).map(|_| rng.sample::<f64, _>(StandardNormal)).collect();
+                    if a.eps == -1.0 { a.eps = reference_eps0(&x, &mom0); }
+                    a.mu = (10.0 * a.eps).ln();
+                    a.n_discard = n_discard;
+                    let mut rows: Vec<Vec<f64>> = vec![x.clone(); n_collect];
+                    for m in 1..(n_collect + n_discard) {
+                        let (nx, na, _logu, fr) = reference_transition(&x, &a, delta, &mut rng);
+                        x = nx;
+                        a = na;
+                        fragile |= fr;
+                        if m >= n_discard { rows[m - n_discard] = x.clone(); }
+                    }
+                    if fragile { break; }
+                    for k in 0..n_collect {
+                        if !(close(got[2 * k], rows[k][0]) && close(got[2 * k + 1], rows[k][1])) {
+                            witness(format!("{{\"oracle\":\"c03_c04\",\"seed\":{seed},\"start\":{start:?},\"delta\":{delta},\"run_index\":{ri},\"n_collect\":{n_collect},\"n_discard\":{n_discard},\"row\":{k},\"got\":[{},{}],\"want\":{:?},\"what\":\"run() differs from Algorithm 6 with dual averaging (gamma 0.05, t0 10, kappa 0.75, mu = ln(10 eps0), averaged iterate starting at 1, frozen after warm-up, warm-up counter kept across runs) simulated from the same seed\"}}", got[2 * k], got[2 * k + 1], rows[k]));
+                        }
+                    }
+                }
+            }
+        }
+
+        #[cfg(feature = "verif-hooks")]
         #[test]
         fn oracle_c03_c04_nuts_transition_matches_algorithm_6_and_dual_averaging() {
             for (seed, start, n_discard, delta) in [(1u64, vec![0.2f64, 0.9], 8usize, 0.8f64), (2, vec![3.0, -2.0], 0, 0.65), (3, vec![-1.0, 4.0], 15, 0.9), (4, vec![40.0, -30.0], 5, 0.8)] {
@@ -1324,6 +1392,7 @@ mod oracle {
     }
 
     // ---------------------------------------------------------------- C16 ------------
+    #[cfg(feature = "verif-hooks")]
     #[test]
     fn oracle_c16_categorical() {
         let zero_seed = seed_with_first_uniform_zero();
